@@ -909,6 +909,25 @@ def attribute_definitions(repo):
                         per_class.setdefault(k, set()).add(name)
                 visit(ch, o)
         visit(tree, None)
+    # inheritance inside the package: an instance of a subclass has what its bases define, and a method of a base class may read
+    # what a subclass defines (template methods of an abstract base): the sets of a class and of its package bases are merged
+    bases = {}
+    for rel, tree in repo.trees.items():
+        for c in [n for n in ast.walk(tree) if isinstance(n, ast.ClassDef)]:
+            bases[c.name] = [ast.unparse(b).split('.')[-1] for b in c.bases]
+    changed = True
+    while changed:
+        changed = False
+        for c, bs in bases.items():
+            for b in bs:
+                if b in per_class:
+                    merged = per_class.setdefault(c, set()) | per_class[b]
+                    if merged != per_class[c] or merged != per_class[b]:
+                        per_class[c] = set(merged)
+                        per_class[b] = set(merged)
+                        changed = True
+                elif b not in ('object', 'Enum', 'IntEnum', 'ABC', 'NamedTuple', 'Protocol', 'Exception'):
+                    unknown.add('*') if False else None
     return per_class, unknown
 
 
